@@ -601,6 +601,9 @@ def points_end(prog, rep):
             n_end += 1
             if not exhausted:
                 bad.append("next() returns None although the scanline source is not exhausted (%s)" % "; ".join(show_fact(x)[:90] for x in sm.facts)[:260])
+        elif (r[0] == "call" and r[1].endswith("scanline::Scanline as core::iter::traits::iterator::Iterator>::next") and not took
+              and any(fct[0] == "false" and fct[1][0] == "call" and fct[1][1].split("::")[-1] == "is_empty" and fct[1][3] == r[3] for fct in sm.facts)):
+            pass        # a point of the current scanline, which the path has found not to be empty: not an end
         elif took and not exhausted:
             bad.append("after taking a fresh scanline next() returns %s, which is None for an empty scanline: the enumeration ends although later rows may hold points" % show(r, maxd=2)[:120])
         else:
